@@ -15,6 +15,8 @@ From Coq.Strings Require Import Byte.
 From L4.model Require Import GoBase.
 From L4.gen Require Import Consts Shape.
 Import ListNotations.
+Close Scope Z_scope.
+Open Scope nat_scope.
 
 Definition MAXB : nat := Z.to_nat layer4_MaxMatchingBytes.
 Definition CHUNK : nat := Z.to_nat layer4_prefetchChunkSize.
